@@ -826,8 +826,10 @@ def run_cases(tier, r):
             for M in Ms:
                 for a in als:
                     for avg, nb in [(True, 1), (True, 2), (False, 2)] if tier == 'quick' else [(True, 1), (False, 1)] + ([(True, 2), (False, 2)] if L <= 4 else []):
-                        if True:
-                            out.append({'clause': 'run', 'spec': specs[pk], 'L': L, 'M': M, 'alpha': a, 'dt': dt, 't0': t0, 'nblocks': nb, 'avg': avg, 'restol': 1e-12, 'maxiter': maxiter, 'u0': u0 if pk.startswith('dahlquist') else u0r})
+                        # complex operators (Dahlquist) are started from complex AND from real-valued data: the value handed
+                        # to the next block is complex either way
+                        for uu in ((u0, u0r) if pk.startswith('dahlquist') else (u0r,)):
+                            out.append({'clause': 'run', 'spec': specs[pk], 'L': L, 'M': M, 'alpha': a, 'dt': dt, 't0': t0, 'nblocks': nb, 'avg': avg, 'restol': 1e-12, 'maxiter': maxiter, 'u0': uu})
     return out
 
 
